@@ -156,6 +156,7 @@ def vetted : List (String × String × String × String) := [
   ("app/app.go", "LinkApplication.clearProcessResult", "app.processMap", "filters a local cache into a new map; set operation"),
   ("state/keyvalue.go", "wrappedTrie.Commit", "kvTrie.updates", "distinct keys into one DB batch (commutative); the undo log written in this order is node-local"),
   ("state/state_object.go", "stateObject.updateTrie", "c.dirtyStorage", "TryUpdate/TryDelete records feed the heap sort of wrappedTrie.Hash (stateHash_perm) and an MPT over distinct keys (canonical, C10)"),
+  ("state/state_object.go", "stateObject.deepCopy", "c.data.Tokens", "copies a map (fix 9e64f31: the copy gets its own Tokens map)"),
   ("state/state_object.go", "stateObject.TokenBalances", "c.data.Tokens", "callers: gasSuicide sums the (single) LKC entry; opSuicide credits distinct tokens (commutative) and sorts before emitting records; wasm tcSelfDestruct appends balance records in this order — node-local index, not in any block hash; RPC"),
   ("state/statedb.go", "StateDB.Logs", "s.logs", "only used by vm/wasm/wasm-run (a tool)"),
   ("state/statedb.go", "StateDB.Copy", "s.journal.dirties", "copies a map"),
